@@ -8,6 +8,7 @@ import CantoVerif.Driver.Signers
 import CantoVerif.Driver.Genesis
 import CantoVerif.Driver.Replica
 import CantoVerif.Driver.Csr
+import CantoVerif.Driver.Erc20
 /-! Line-protocol driver: `lake env lean --run Main.lean <suite> < trace` -/
 def main (args : List String) : IO UInt32 := do
   match args with
@@ -21,4 +22,5 @@ def main (args : List String) : IO UInt32 := do
   | ["genesis"] => CV.Drv.Genesis.main; return 0
   | ["replica"] => CV.Drv.Replica.main; return 0
   | ["csr"] => CV.Drv.Csr.main; return 0
+  | ["erc20"] => CV.Drv.Erc20.main; return 0
   | _ => IO.eprintln "usage: Main <suite>"; return 2
